@@ -110,6 +110,9 @@ seq_t dtw_distance(seq_t *s1, idx_t l1,
             return max_dist;
         }
         max_dist = pow(max_dist, 2);
+        // The sqrt/pow round trip can make the bound an ulp smaller than the cost of
+        // the path it was computed from
+        max_dist *= (1 + 1e-14);
     } else if (max_dist == 0) {
         max_dist = INFINITY;
     } else {
@@ -348,6 +351,9 @@ seq_t dtw_distance_ndim(seq_t *s1, idx_t l1,
             return max_dist;
         }
         max_dist = pow(max_dist, 2);
+        // The sqrt/pow round trip can make the bound an ulp smaller than the cost of
+        // the path it was computed from
+        max_dist *= (1 + 1e-14);
     } else if (max_dist == 0) {
         max_dist = INFINITY;
     } else {
@@ -1079,6 +1085,9 @@ seq_t dtw_warping_paths_ndim(seq_t *wps,
                 return sqrt(p.max_dist);
             }
         }
+        // The sqrt/pow round trip can make the bound an ulp smaller than the cost of
+        // the path it was computed from
+        p.max_dist *= (1 + 1e-14);
     }
 
     idx_t ri, ci, min_ci, max_ci, wpsi, wpsi_start;
